@@ -121,10 +121,18 @@ func consensusData(h, rootID int) *spectypes.ConsensusData {
 
 var rootIDs = map[[32]byte]int{}
 
+// root ids from bigRootBase on denote values of about 400 KiB (campaign V, V-m12: a storage size limit silently loses the record)
+const bigRootBase = 5000
+
 func fullData(h, rootID int) ([]byte, [32]byte) {
 	b, err := consensusData(h, rootID).Encode()
 	if err != nil {
 		panic(err)
+	}
+	if rootID >= bigRootBase {
+		// a LARGE decided value (the size class of a full beacon block of a proposer duty): the stored instance record then
+		// exceeds a megabyte. Only sent through Controller.ProcessMsg (the runner would have to decode it as consensus data).
+		b = append(b, make([]byte, 400<<10)...)
 	}
 	r := sha256.Sum256(b)
 	rootIDs[r] = rootID
@@ -908,7 +916,12 @@ func (h *harness) genCase(r *hx.Rng) {
 			if len(sg) == 1 && r.Chance(70) {
 				rd = 1
 			}
-			h.do(fmt.Sprintf("decided h=%d r=%d root=%d s=%s ok=%d via=%s%s", ht, rd, root, signersOut(sg), ok, via(), sf))
+			v := via()
+			if r.Chance(4) {
+				root, v = bigRootBase+2*ht, "c"
+				h.run.Tag("decided:large-value")
+			}
+			h.do(fmt.Sprintf("decided h=%d r=%d root=%d s=%s ok=%d via=%s%s", ht, rd, root, signersOut(sg), ok, v, sf))
 		case c < 87:
 			h.do(fmt.Sprintf("compact %d", near()))
 		default:
